@@ -226,6 +226,9 @@ def run(ctx, rep):
     rep.rule('R03.6', 'who frees: destroy <- Object::free <- {GC::sweep, free_recursive}; free_recursive unused inside the crate')
     rep.rule('R03.7', 'unchanged / never recycled: a &mut into a box is taken only by the constructor that allocated it or on the IndexSet path')
     check_payload_writers(ctx, rep, 'R03.7')
+    rep.rule('R03.9', 'literals of the program stay what they are: what the constant pool holds is handed to the program by value - a value the program can change in place or the caller can release (a string, an array and what it holds) is copied by OpCode::Const, so neither reaches the pooled object')
+    from rules import c10 as _c10
+    _c10.check_pool_by_value(ctx, rep, 'R03.9')
     rep.rule('R03.8', 'no object is released twice: free_recursive (the caller releasing a result) frees an object only after a set answered `first time` for it, at the moment it is taken from the work list - an array can hold the same object in two elements')
     from rules import c04 as _c04
     _c04.check_free_recursive(ctx, rep, 'R03.8')
